@@ -232,6 +232,9 @@ func Groups(quick bool) []group {
 		"loop":   {Mode: gprog.MPregel, MaxSteps: 6, Nodes: L("a", "b"), Edges: E("start>a", "a>b"), Branches: []gprog.Branch{{From: "b", Targets: []string{"a", "end"}}}},
 		"dagfan": {Mode: gprog.MDag, Nodes: L("a", "b", "c"), Edges: E("start>a", "start>b", "a>c", "b>c", "c>end")},
 		"wffan":  {Mode: gprog.MWorkflow, Nodes: L("a", "b", "c"), Edges: E("start>a", "start>b", "a>c", "b>c", "c>end")},
+		// three parallel nodes: with two of them asking for a re-run, the third is a plain task that completes next to two failed ones
+		"fan3":   {Mode: gprog.MPregel, Nodes: L("a", "b", "c"), Edges: E("start>a", "start>b", "start>c", "a>end", "b>end", "c>end")},
+		"wffan3": {Mode: gprog.MWorkflow, Nodes: L("a", "b", "c"), Edges: E("start>a", "start>b", "start>c", "a>end", "b>end", "c>end")},
 	}
 	for _, rk := range sortedKeys(rer) {
 		p := rer[rk]
